@@ -43,6 +43,17 @@ CHECKS = {
          "Tracer calls (numbered in source order) and failing terms are placed in every operand position of if, ?:, &&, ||, user-registered lazy and / or / second / twice, strict calls, list / map / object literals and subscripts, nested up to the depth bound, plus hand-built three-level nestings of lazy calls inside thunks; on each of the four back ends the ordered trace of host-function invocations and the outcome class must equal the reference evaluator's (condition once, selected operand only, strict operands once and left to right, key before value).",
          "Trusted: mc/ref evaluator's evaluation order (README / property statement).",
          "DESIGN.md §4 C06"),
+
+ "C08": ("enum", "model_checking",
+         "bounded-exhaustive enumeration of operator tables × token sequences, parsed by the real lexer+parser and by an independent shunting-yard reference parser; trees and node spans compared",
+         "For 81 (thorough 729) operator tables over two infix symbols × {left, right, non-associative} × binding powers {3, 3.5, 4}, one prefix and one postfix symbol, plus the built-in table, an identifier-like-operator table and a literal-forms table, every token sequence up to the length bound (5 tokens over the 13-symbol alphabet incl. ( ) ? : . [ ] , ; 7 / 9 tokens over the operator-only and ternary alphabets) is parsed by the real code and by the reference (hand-written scanner + two-stack operator-precedence parser): accept / reject, the tree and every node's span (rune range, line, column; one family is newline-separated) must agree. Non-associative self-chains must be rejected in every context.",
+         "Trusted: mc/ref/lex.go + mc/ref/parse.go (a different parsing algorithm driven only by the declarations). Bound: <= 2 infix symbols per table, one role per symbol except the built-in table.",
+         "DESIGN.md §4 C08"),
+ "C09": ("enum", "model_checking",
+         "bounded-exhaustive enumeration of input strings × operator sets through the real lexer, checked against model-free span invariants and a hand-written reference scanner",
+         "All strings of <= 4 (thorough 5) atoms over a 35-atom mixed alphabet (keywords, ASCII / non-ASCII letters, digits and radix prefixes, exponent letters, dot, operator characters, quotes, backslash, white space incl. newline) under six operator sets (built-in, prefix-overlapping symbolic, containing . and ?, identifier-like with common prefixes, non-ASCII identifier-like, empty): tokens must be in source order, non-overlapping, separated only by white space, with runes[Idx:IdxEnd] == Lexeme and Line / Col recomputed from the text, and the token sequence must equal the reference scanner's (longest registered symbolic operator, whole-word identifier-like operators and true / false, . and ? never split out of a longer operator, each literal form one token); error iff the reference errors.",
+         "Trusted: mc/ref/lex.go (no regexp). The literal grammars of lexer/factory.go are taken as the documented lexical grammar.",
+         "DESIGN.md §4 C09"),
  "C17": ("enum", "model_checking",
          "bounded-exhaustive enumeration of type pairs executed on the real Unify/Equals, judged against an independent matcher and algebraic laws",
          "Every ordered pair of types up to depth 1 (width 2) over the full constructor alphabet, every same-constructor pair of a reduced depth-2 set, and every pair of argument 2-tuples (tree-shaped and pointer-shared) is run through the real types.Equals / types.Unify in both orders; Equals must coincide with structural identity by field name, and a successful Unify must yield an acyclic substitution that makes both sides equal (relaxed only at the documented ⊥/⊤ positions) and must succeed exactly when the reference one-way matcher finds an instantiation for pattern-vs-ground pairs. Exhaustive within that bound; nothing is sampled.",
